@@ -185,6 +185,119 @@ def convert_ntt_big(o):
     return out
 
 
+def convert_rns(f):
+    """raw RNS fact -> TLC fact with limbs and hints (python big integers; untrusted)"""
+    op = f["op"]
+    L = limbs
+    if op == "flagpanic":
+        return flag(False, f["what"] + " panicked")
+    q = [int(v) for v in f["q"]]
+    Q = 1
+    for m in q:
+        Q *= m
+    if op == "rns_crt":
+        X = val(f["x"][0])
+        r = [int(v) for v in f["r"]]
+        back = val(f["back"]) if f.get("back") else -1
+        if len(r) != len(q) or back != X:
+            return flag(False, "compose(decompose(x)) != x or wrong length")
+        return {"op": op, "q": [L(m) for m in q], "r": [L(v) for v in r], "x": [L(X)], "h": [L(X // m) for m in q], "n": []}
+    if op in ("rns_conv", "rns_mtilde"):
+        X = val(f["x"][0])
+        p = [int(v) for v in f["p"]]
+        o = [int(v) for v in f["o"]]
+        Y = X
+        extra = {}
+        if op == "rns_mtilde":
+            mt = int(f["mt"])
+            Y = (X * mt) % Q
+        # the true error term of the fast conversion: sum_i [y_i * (Q/q_i)^-1]_{q_i} * (Q/q_i) = Y + a*Q
+        tot = 0
+        for m in q:
+            pm = Q // m
+            tot += ((Y % m) * pow(pm % m, -1, m) % m) * pm if m > 1 else 0
+        a = (tot - Y) // Q if len(q) > 1 else 0
+        a = max(0, min(a, 10 ** 6))
+        h = [L((Y + a * Q) // m) for m in p]
+        fact = {"op": op, "q": [L(m) for m in q], "p": [L(m) for m in p], "o": [L(v) for v in o], "h": h, "n": [a]}
+        if op == "rns_mtilde":
+            fact["x"] = [L(X), L(mt), L(Y), L(X * mt // Q)]
+        else:
+            fact["x"] = [L(X)]
+        return fact
+    if op == "rns_mrq":
+        p = [int(v) for v in f["p"]]
+        c = [int(v) for v in f["c"]]
+        o = [int(v) for v in f["o"]]
+        mt, cmt = int(f["mt"]), int(f["cmt"])
+        rm = (-cmt * pow(Q % mt, -1, mt)) % mt
+        hm = (rm * Q + cmt) // mt
+        neg = 2 * rm >= mt
+        rabs = mt - rm if neg else rm
+        hs, lges = [], []
+        for j, m in enumerate(p):
+            if neg:
+                Lv, Rv = o[j] * mt + Q * rabs, c[j]
+            else:
+                Lv, Rv = o[j] * mt, c[j] + Q * rabs
+            lges.append(Lv >= Rv)
+            hs.append(L(abs(Lv - Rv) // m))
+        return {"op": op, "x": [L(Q), L(mt), L(cmt), L(rm), L(hm)], "p": [L(m) for m in p], "c": [L(v) for v in c], "o": [L(v) for v in o], "h": hs, "lge": lges, "n": []}
+    if op == "rns_floor":
+        X = val(f["x"][0])
+        p = [int(v) for v in f["p"]]
+        o = [int(v) for v in f["o"]]
+        fl, rem = X // Q, X % Q
+        # a is determined by the first output modulus (the same a must fit all of them)
+        a = (fl - o[0]) % p[0]
+        if a >= len(q):
+            a = 0
+        hs, lges = [], []
+        for j, m in enumerate(p):
+            Lv, Rv = o[j] + a, fl
+            lges.append(Lv >= Rv)
+            hs.append(L(abs(Lv - Rv) // m))
+        return {"op": op, "x": [L(X), L(fl), L(rem)], "q": [L(m) for m in q], "p": [L(m) for m in p], "o": [L(v) for v in o], "h": hs, "lge": lges, "n": [a]}
+    if op == "rns_sk":
+        mag = val(f["x"][0])
+        neg = bool(f["neg"])
+        o = [int(v) for v in f["o"]]
+        hs = [L((mag + v) // m) if (neg and mag) else L(mag // m) for v, m in zip(o, q)]
+        return {"op": op, "x": [L(mag)], "n": [1 if neg else 0], "q": [L(m) for m in q], "o": [L(v) for v in o], "h": hs}
+    if op == "rns_divround":
+        X = val(f["x"][0])
+        o = [int(v) for v in f["o"]]
+        qk = q[-1]
+        half = qk // 2
+        v = (X + half) // qk
+        return {"op": op, "x": [L(X), L(v), L((X + half) % qk), L(half)], "q": [L(m) for m in q], "o": [L(x) for x in o], "h": [L(v // m) for m in q[:-1]], "n": []}
+    if op == "rns_modtdiv":
+        X = val(f["x"][0])
+        o = [int(v) for v in f["o"]]
+        t = int(f["t"])
+        qk = q[-1]
+        fl, delta = X // qk, X % qk
+        u = (-delta * pow(qk % t, -1, t)) % t
+        ht = (delta + qk * u) // t
+        hs, lges = [], []
+        for i, m in enumerate(q[:-1]):
+            Lv, Rv = o[i] + u, fl
+            lges.append(Lv >= Rv)
+            hs.append(L(abs(Lv - Rv) // m))
+        return {"op": op, "x": [L(X), L(fl), L(delta), L(t), L(u), L(ht)], "q": [L(m) for m in q], "o": [L(v) for v in o], "h": hs, "lge": lges, "n": []}
+    if op == "rns_scaleround":
+        X, t, m, e, out = int(f["X"]), int(f["t"]), int(f["m"]), int(f["e"]), int(f["out"])
+        return {"op": op, "x": [L(Q), L(t), L(X), L(m), L(abs(e)), L(out)], "n": [1 if e < 0 else 0]}
+    if op == "rns_modt":
+        X, t, c, out = int(f["X"]), int(f["t"]), int(f["c"]), int(f["out"])
+        neg = c < 0
+        mag = abs(c)
+        kq = (mag + X) // Q if (neg and mag) else mag // Q
+        kt = (mag + out) // t if (neg and mag) else mag // t
+        return {"op": op, "x": [L(Q), L(t), L(X), L(mag), L(kq), L(out), L(kt)], "n": [1 if neg else 0]}
+    raise ToolError("unknown rns op %s" % op)
+
+
 def describe(f):
     d = {k: v for k, v in f.items() if k in ("op", "x", "n", "e", "a", "b", "variant", "ok", "r", "m")}
     return d
@@ -211,6 +324,17 @@ def convert_lines(raw_lines):
             out.append(json.dumps(o))
             e = o["facts"][0]
             index[(ln, 1)] = {"op": "ntt_small", "n": e["n"], "q": e["q"], "root": e["root"]}
+            continue
+        if o["ev"] == "rns":
+            ln = len(out) + 1
+            facts = []
+            for i, f in enumerate(o["facts"]):
+                if f["op"] == "rns_dec_request":
+                    continue
+                facts.append(convert_rns(f))
+                index[(ln, len(facts))] = {k: v for k, v in f.items() if k in ("op", "q", "variant", "t", "what")}
+            if facts:
+                out.append(json.dumps({"ev": "big", "facts": facts}))
             continue
         if o["ev"] == "batch":
             ln = len(out) + 1
